@@ -2,13 +2,16 @@
 # re-run the checks on every stored behaviour-preserving refactoring (harmless/ and harmless2/) against the CURRENT checks;
 # prints one line per patch; expected: exit 0 everywhere (2 = undecided)
 cd /verif
-python3 - <<'PY'
+python3 - "$@" <<'PY'
 import json,os,subprocess,shutil,glob
 fp=json.load(open('/verif/tools/func_props.json'))
-for d in sorted(glob.glob('/verif/harmless/*_*')+glob.glob('/verif/harmless2/*_*')):
+import sys
+only=sys.argv[1:]
+for d in sorted(glob.glob('/verif/harmless/*_*')+glob.glob('/verif/harmless2/*_*')+glob.glob('/verif/harmless3/*_*')):
+    if only and os.path.relpath(d,'/verif') not in only: continue
     r=json.load(open(d+'/result.json')); fn=r['function']
     props=sorted(set(fp.get(fn) or list(r['checks'])))
-    S='/tmp/ombott-rh'; shutil.rmtree(S,ignore_errors=True); os.makedirs(S); shutil.copytree('/repo/ombott', S+'/ombott')
+    S='/tmp/ombott-rh-%d'%os.getpid(); shutil.rmtree(S,ignore_errors=True); os.makedirs(S); shutil.copytree('/repo/ombott', S+'/ombott')
     a=subprocess.run(f'cd {S} && git init -q . && git apply {d}/patch.diff', shell=True, capture_output=True, text=True)
     if a.returncode: print('NOAPPLY',d); continue
     shutil.rmtree(S+'/.git')
